@@ -321,14 +321,20 @@ func shuffleKeepingNameOrder(rt *rapid.T, h []kv) {
 	}
 }
 
-func setAuth(rt *rapid.T, r *reqPlan, kind int) {
+func setAuth(rt *rapid.T, p *plan, r *reqPlan, kind int) {
 	r.Auth = kind
 	var v string
 	switch kind {
 	case authNone:
 		return
 	case authGood:
-		v = sample(rt, []string{"Basic ", "Basic ", "basic ", "BASIC "}, "scheme") + goodToken
+		// alice's credentials; with several configured users sometimes bob's. (With no configured
+		// user these are still sent - and must be rejected.)
+		goodTok := goodToken
+		if p.AuthEnabled && p.UserTable == usersSeveral && chance(rt, 40, "as-bob") {
+			goodTok = bobToken
+		}
+		v = sample(rt, []string{"Basic ", "Basic ", "basic ", "BASIC "}, "scheme") + goodTok
 	case authBad:
 		v = sample(rt, []string{"Basic " + badToken, "Digest username=\"alice\"", "Basic", "Bearer " + goodToken,
 			"Basic " + goodToken[:len(goodToken)-4], "Basic " + strings.ToLower(goodToken)}, "badcred")
@@ -468,6 +474,10 @@ func genWritePlan(rt *rapid.T, small bool) []int {
 func genPlan(rt *rapid.T) *plan {
 	p := &plan{ClientAbort: -1}
 	p.AuthEnabled = chance(rt, 35, "auth-enabled")
+	if p.AuthEnabled {
+		// user table sizes 1, several, 0 (nil), 0 (empty slice); with no users nobody may ever be forwarded
+		p.UserTable = sample(rt, []int{usersOne, usersOne, usersOne, usersSeveral, usersSeveral, usersNil, usersEmpty}, "user-table")
+	}
 	var n int
 	switch irange(rt, 0, 9, "nclass") {
 	case 0:
@@ -508,7 +518,7 @@ func genPlan(rt *rapid.T) *plan {
 			if chance(rt, 5, "bad-close") {
 				r.Hdr = append(r.Hdr, kv{"Connection", " close"})
 			}
-			setAuth(rt, &r, sample(rt, []int{authNone, authBad, authBad}, "badkind"))
+			setAuth(rt, p, &r, sample(rt, []int{authNone, authBad, authBad}, "badkind"))
 			p.Reqs = append(p.Reqs, r)
 		}
 	}
@@ -545,15 +555,15 @@ func genPlan(rt *rapid.T) *plan {
 		}
 		switch {
 		case p.AuthEnabled && neverGood:
-			setAuth(rt, &r, sample(rt, []int{authNone, authBad}, "auth"))
+			setAuth(rt, p, &r, sample(rt, []int{authNone, authBad}, "auth"))
 			r.Expect = false
 			stripField(&r, "expect")
 		case p.AuthEnabled && i == 0:
-			setAuth(rt, &r, authGood)
+			setAuth(rt, p, &r, authGood)
 		case p.AuthEnabled:
-			setAuth(rt, &r, sample(rt, []int{authGood, authGood, authNone, authBad}, "auth"))
+			setAuth(rt, p, &r, sample(rt, []int{authGood, authGood, authNone, authBad}, "auth"))
 		default:
-			setAuth(rt, &r, sample(rt, []int{authNone, authNone, authNone, authNone, authGood, authBad}, "auth"))
+			setAuth(rt, p, &r, sample(rt, []int{authNone, authNone, authNone, authNone, authGood, authBad}, "auth"))
 		}
 		p.Reqs = append(p.Reqs, r)
 	}
@@ -564,7 +574,7 @@ func genPlan(rt *rapid.T) *plan {
 	if p.AuthEnabled {
 		// the body of a request that is going to be rejected must never look like HTTP
 		for i := range p.Reqs {
-			if _, valid := authValid(&p.Reqs[i]); valid {
+			if _, valid := authValid(p, &p.Reqs[i]); valid {
 				break
 			}
 			p.Reqs[i].Body.HighOnly = true
